@@ -169,6 +169,7 @@ func (p *c09Pod) lse() bool { return p.QoSLabel == extension.QoSLSE }
 type c09Metric struct {
 	NS    string
 	Name  string
+	QoS   extension.QoSClass // host applications: the qos field of the entry ("" = not reported); may disagree with Prio
 	Prio  extension.PriorityClass
 	Usage c09Res
 }
@@ -188,7 +189,8 @@ type c09Input struct {
 	Sys             c09Res
 	SysEmpty        bool     // systemUsage reported without a resource list
 	SysOmit         [2]bool  // systemUsage reported without this key (Sys is 0 there)
-	Zones           []c09Res // per-zone capacity; nil = no NodeResourceTopology object
+	Zones           []c09Res // capacity of the i-th LISTED zone; nil = no NodeResourceTopology object
+	ZoneIDs         []int    // NUMA id of the i-th listed zone (its name is node-<id>); nil = 0..n-1 in order
 
 	Thr          [2]int64 // <res>ReclaimThresholdPercent
 	ThrViaLabel  [2]bool  // delivered by the node label (ratio = Thr/100) instead of the strategy field
@@ -213,8 +215,20 @@ func (in *c09Input) clone() *c09Input {
 	o.Dangling = append([]c09Metric(nil), in.Dangling...)
 	o.HostApps = append([]c09Metric(nil), in.HostApps...)
 	o.Zones = append([]c09Res(nil), in.Zones...)
+	o.ZoneIDs = append([]int(nil), in.ZoneIDs...)
 	return &o
 }
+
+// zoneID is the NUMA id of the i-th listed zone; a zone's identity is its name node-<id> (what the scheduler parses
+// and what pods' resource-status annotations refer to), not its position in the list.
+func (in *c09Input) zoneID(i int) int {
+	if in.ZoneIDs == nil {
+		return i
+	}
+	return in.ZoneIDs[i]
+}
+
+func (in *c09Input) zoneName(i int) string { return fmt.Sprintf("node-%d", in.zoneID(i)) }
 
 func (in *c09Input) effPolicy(res int) int {
 	if in.Policy[res] == c09PolNil {
@@ -287,10 +301,12 @@ type c09Variant struct {
 	lseAtRequest bool // design reading: an LSE pod's CPU is exclusive, charged at request under the usage policy
 	noMetricZero bool // diagnosis only: metric-less HP pods not charged under maxUsageRequest
 	reservedOnly bool // diagnosis only: request policy subtracts the reservation, not max(system usage, reservation)
+	byPosition   bool // diagnosis only: a pod's NUMA ids are matched against list positions instead of the zones' ids
 }
 
-// c09Share is the part of an amount attributed to a zone (zone < 0: the node itself).
-func c09Share(zones int, numa []int, zone int) *big.Rat {
+// c09Share is the part of an amount attributed to a zone (zone < 0: the node itself); zoneID is the NUMA id of
+// that zone, numa the NUMA ids the pod is bound to.
+func c09Share(zones int, numa []int, zone, zoneID int) *big.Rat {
 	if zone < 0 {
 		return c09Int(1)
 	}
@@ -298,9 +314,30 @@ func c09Share(zones int, numa []int, zone int) *big.Rat {
 		return big.NewRat(1, int64(zones))
 	}
 	for _, n := range numa {
-		if n == zone {
+		if n == zoneID {
 			return big.NewRat(1, int64(len(numa)))
 		}
+	}
+	return new(big.Rat)
+}
+
+// c09SharePos is the diagnosis reading "NUMA ids are list positions": ids outside 0..zones-1 are dropped, a pod
+// left without any id is spread over all zones.
+func c09SharePos(zones int, numa []int, zone int) *big.Rat {
+	valid, hit := 0, false
+	for _, n := range numa {
+		if n >= 0 && n < zones {
+			valid++
+			if n == zone {
+				hit = true
+			}
+		}
+	}
+	switch {
+	case valid == 0:
+		return big.NewRat(1, int64(zones))
+	case hit:
+		return big.NewRat(1, int64(valid))
 	}
 	return new(big.Rat)
 }
@@ -348,7 +385,11 @@ func c09Bound(in *c09Input, res, zone int, v c09Variant) *big.Rat {
 	if v.reservedOnly && pol == c09PolRequest {
 		top = in.reserved()[res]
 	}
-	b.Sub(b, new(big.Rat).Mul(c09Int(top), c09Share(z, nil, zone)))
+	zid := -1
+	if zone >= 0 {
+		zid = in.zoneID(zone)
+	}
+	b.Sub(b, new(big.Rat).Mul(c09Int(top), c09Share(z, nil, zone, zid)))
 	for i := range in.Pods {
 		p := &in.Pods[i]
 		if !p.live() || !p.hp() {
@@ -376,12 +417,16 @@ func c09Bound(in *c09Input, res, zone int, v c09Variant) *big.Rat {
 		if p.NUMABroken {
 			numa = nil
 		}
-		b.Sub(b, new(big.Rat).Mul(c09Int(charge), c09Share(z, numa, zone)))
+		share := c09Share(z, numa, zone, zid)
+		if v.byPosition && zone >= 0 && len(numa) > 0 {
+			share = c09SharePos(z, numa, zone)
+		}
+		b.Sub(b, new(big.Rat).Mul(c09Int(charge), share))
 	}
 	if pol != c09PolRequest {
 		for _, d := range in.Dangling {
 			if d.Prio == extension.PriorityProd || d.Prio == extension.PriorityMid {
-				b.Sub(b, new(big.Rat).Mul(c09Int(d.Usage[res]), c09Share(z, nil, zone)))
+				b.Sub(b, new(big.Rat).Mul(c09Int(d.Usage[res]), c09Share(z, nil, zone, zid)))
 			}
 		}
 	}
@@ -673,7 +718,7 @@ func (in *c09Input) build(now time.Time) c09Objects {
 		}
 		for _, h := range in.HostApps {
 			nm.Status.HostApplicationMetric = append(nm.Status.HostApplicationMetric, &slov1alpha1.HostApplicationMetricInfo{Name: h.Name,
-				Usage: slov1alpha1.ResourceMap{ResourceList: c09RL(h.Usage)}, Priority: h.Prio})
+				Usage: slov1alpha1.ResourceMap{ResourceList: c09RL(h.Usage)}, Priority: h.Prio, QoS: h.QoS})
 			total[0] += h.Usage[0]
 			total[1] += h.Usage[1]
 		}
@@ -691,7 +736,7 @@ func (in *c09Input) build(now time.Time) c09Objects {
 	if in.Zones != nil {
 		nrt := &topologyv1alpha1.NodeResourceTopology{ObjectMeta: metav1.ObjectMeta{Name: c09NodeName}, TopologyPolicies: []string{string(topologyv1alpha1.None)}}
 		for i, zc := range in.Zones {
-			zone := topologyv1alpha1.Zone{Name: fmt.Sprintf("node-%d", i), Type: "Node"}
+			zone := topologyv1alpha1.Zone{Name: in.zoneName(i), Type: "Node"}
 			for res := 0; res < 2; res++ {
 				q := c09Q(res, zc[res])
 				zone.Resources = append(zone.Resources, topologyv1alpha1.ResourceInfo{Name: c09ResName[res], Capacity: q, Allocatable: q, Available: q})
@@ -817,9 +862,9 @@ func c09RunAt(c *kit.Case, in *c09Input, tag string, now time.Time, cl *c09Clien
 				c.Fail("C09/output/zone-count", "%s: %d zones but %d zone amounts for %s", tag, len(in.Zones), len(byName[res].ZoneQuantity), byName[res].Name)
 			}
 			for z := range in.Zones {
-				q, ok := byName[res].ZoneQuantity[fmt.Sprintf("node-%d", z)]
+				q, ok := byName[res].ZoneQuantity[in.zoneName(z)] // a zone's amount is the one published under the zone's NAME
 				if !ok {
-					c.Fail("C09/output/zone-count", "%s: no amount for zone node-%d of %s", tag, z, byName[res].Name)
+					c.Fail("C09/output/zone-count", "%s: no amount for zone %s of %s", tag, in.zoneName(z), byName[res].Name)
 				}
 				out.zone[z][res] = c09Amount(c, res, q, tag)
 			}
@@ -851,7 +896,7 @@ func c09CheckBounds(c *kit.Case, in *c09Input, out *c09Out, tag string) {
 		scope, area := "node", "bound"
 		capacity := in.Cap[res]
 		if zone >= 0 {
-			scope, area = fmt.Sprintf("zone %d", zone), "zone-bound"
+			scope, area = "zone "+in.zoneName(zone), "zone-bound"
 			capacity = in.Zones[zone][res]
 		}
 		c.Count("amounts_checked_"+area, 1)
@@ -896,6 +941,12 @@ func c09CheckBounds(c *kit.Case, in *c09Input, out *c09Out, tag string) {
 					"%s; it equals the bound only if the reservation is subtracted instead of the larger of system usage and reservation", detail)
 				c.Count("known_request_policy_reservation_only", 1)
 				return
+			case zone >= 0 && in.ZoneIDs != nil && (explained(c09Bound(in, res, zone, c09Variant{byPosition: true})) ||
+				explained(c09Bound(in, res, zone, c09Variant{byPosition: true, reservedOnly: true}))):
+				c.Report("C09/zone-bound/numa-bound-pod-charged-by-list-position",
+					"%s; zone %s is listed at position %d: the excess disappears if the pods' NUMA ids are matched against list positions instead of the zones' own ids", detail, in.zoneName(zone), zone)
+				c.Count("zone_pod_charged_by_list_position", 1)
+				return
 			case pol == c09PolMax && noMetricHP > 0 &&
 				explained(c09Bound(in, res, zone, c09Variant{noMetricZero: true})):
 				sig := "C09/bound/no-metric-hp-pod-node-level"
@@ -909,6 +960,12 @@ func c09CheckBounds(c *kit.Case, in *c09Input, out *c09Out, tag string) {
 			c.Fail(fmt.Sprintf("C09/%s/exceeds-%s", area, c09ResName[res]), "%s", detail)
 		}
 		if design := c09Pos(c09Bound(in, res, zone, c09Variant{lseAtRequest: true})); v.Cmp(design) > 0 {
+			if zone >= 0 && in.ZoneIDs != nil && v.Cmp(c09Pos(c09Bound(in, res, zone, c09Variant{lseAtRequest: true, byPosition: true}))) <= 0 {
+				c.Report("C09/zone-bound/numa-bound-pod-charged-by-list-position",
+					"%s exceeds %s; zone %s is listed at position %d: the excess disappears if the pods' NUMA ids are matched against list positions instead of the zones' own ids", what, design.RatString(), in.zoneName(zone), zone)
+				c.Count("zone_pod_charged_by_list_position", 1)
+				return
+			}
 			c.Fail("C09/"+area+"/lse-cpu-charged-below-request", "%s exceeds %s: an LSE pod's exclusive CPUs are charged below its request", what, design.RatString())
 		}
 		if v.Sign() > 0 && new(big.Rat).Sub(limit, v).Cmp(c09Int(2)) < 0 {
@@ -1086,6 +1143,33 @@ func c09GenPod(r *kit.Rand, name string, cap c09Res, scalePm int, zones int) c09
 	return p
 }
 
+// c09HostAppQoS draws the qos field of a host application entry: not reported, the usual companion of the
+// priority, or any class (the priority is what the statement goes by; mid + BE is a regular koordinator pairing).
+func c09HostAppQoS(r *kit.Rand, prio extension.PriorityClass) extension.QoSClass {
+	switch r.Weighted(40, 35, 25) {
+	case 0:
+		return extension.QoSNone
+	case 1:
+		switch prio {
+		case extension.PriorityProd:
+			return extension.QoSLS
+		case extension.PriorityMid:
+			return kit.Pick(r, []extension.QoSClass{extension.QoSLS, extension.QoSBE})
+		case extension.PriorityBatch, extension.PriorityFree:
+			return extension.QoSBE
+		}
+		return extension.QoSNone
+	}
+	return kit.Pick(r, []extension.QoSClass{extension.QoSLS, extension.QoSBE, extension.QoSBE, extension.QoSLSR, extension.QoSSystem})
+}
+
+// bindByID turns the list positions drawn by c09GenPod into the NUMA ids of those zones.
+func (in *c09Input) bindByID(p *c09Pod) {
+	for j, pos := range p.NUMA {
+		p.NUMA[j] = in.zoneID(pos)
+	}
+}
+
 func c09GenInput(r *kit.Rand) *c09Input {
 	in := &c09Input{}
 	cores := kit.Pick(r, []int64{1, 2, 4, 8, 16, 32, 64, 96, 128, 256, 512})
@@ -1132,6 +1216,45 @@ func c09GenInput(r *kit.Rand) *c09Input {
 			}
 		}
 	}
+	// zone identities: koordlet names zones node-<NUMA id> and sorts the list by NAME (so from 11 NUMA nodes on the
+	// list is node-0,node-1,node-10,node-11,node-2,...); other NRT reporters list zones in their own order and NUMA
+	// ids need not start at 0 (memory-less or offline nodes are not reported).
+	if z := len(in.Zones); z >= 2 {
+		switch r.Weighted(65, 12, 10, 10, 3) {
+		case 1: // descending
+			in.ZoneIDs = make([]int, z)
+			for i := range in.ZoneIDs {
+				in.ZoneIDs[i] = z - 1 - i
+			}
+		case 2: // ids start at 1 or have a hole
+			in.ZoneIDs = make([]int, z)
+			hole := r.Intn(z)
+			for i := range in.ZoneIDs {
+				in.ZoneIDs[i] = i
+				if i >= hole {
+					in.ZoneIDs[i] = i + 1
+				}
+			}
+		case 3: // any order
+			in.ZoneIDs = r.Perm(z)
+		case 4: // 11-16 NUMA nodes in koordlet's name order
+			z = kit.Pick(r, []int{11, 12, 16})
+			names := make([]string, z)
+			for i := range names {
+				names[i] = fmt.Sprintf("node-%d", i)
+			}
+			sort.Strings(names)
+			in.ZoneIDs = make([]int, z)
+			in.Zones = make([]c09Res, z)
+			for i, n := range names {
+				fmt.Sscanf(n, "node-%d", &in.ZoneIDs[i])
+				in.Zones[i] = c09Res{in.Cap[0] / int64(z), in.Cap[1] / int64(z)}
+				if r.Pct(30) {
+					in.Zones[i] = c09Res{c09Amt(r, in.Cap[0], 500/z, 1500/z), c09Amt(r, in.Cap[1], 500/z, 1500/z)}
+				}
+			}
+		}
+	}
 	// pods: a load level decides how big requests are relative to the node
 	n := []int{0, r.Range(1, 4), r.Range(5, 12), r.Range(13, 40)}[r.Weighted(5, 43, 47, 5)]
 	level := []int{400, 900, 1600}[r.Weighted(40, 35, 25)]
@@ -1141,6 +1264,7 @@ func c09GenInput(r *kit.Rand) *c09Input {
 	}
 	for i := 0; i < n; i++ {
 		in.Pods = append(in.Pods, c09GenPod(r, fmt.Sprintf("pod-%d", i), in.Cap, scalePm, len(in.Zones)))
+		in.bindByID(&in.Pods[len(in.Pods)-1])
 	}
 	// namespaces: the metric of a pod is found by namespace/name; names repeat across namespaces
 	nss := []string{c09NS, "c09-b", "kube-system"}
@@ -1182,6 +1306,7 @@ func c09GenInput(r *kit.Rand) *c09Input {
 			h := c09Metric{Name: fmt.Sprintf("hostapp-%d", i)}
 			h.Prio = []extension.PriorityClass{extension.PriorityProd, extension.PriorityMid, extension.PriorityBatch, extension.PriorityFree, extension.PriorityNone}[r.Weighted(48, 15, 29, 5, 3)]
 			h.Usage = c09Res{c09Amt(r, in.Cap[0], 0, 150), c09Amt(r, in.Cap[1], 0, 150)}
+			h.QoS = c09HostAppQoS(r, h.Prio)
 			in.HostApps = append(in.HostApps, h)
 		}
 	}
@@ -1348,6 +1473,7 @@ func c09Probe(r *kit.Rand, base *c09Input, kind int) (in *c09Input, name, desc s
 		}
 		if len(idx) == 0 || r.Pct(25) { // a high-priority host application appears
 			h := c09Metric{Name: fmt.Sprintf("hostapp-new-%d", len(in.HostApps)), Prio: kit.Pick(r, []extension.PriorityClass{extension.PriorityProd, extension.PriorityMid})}
+			h.QoS = c09HostAppQoS(r, h.Prio)
 			h.Usage[res] = d
 			in.HostApps = append(in.HostApps, h)
 			desc = fmt.Sprintf("new %s host application using %s %d", h.Prio, c09ResName[res], d)
@@ -1427,6 +1553,7 @@ func c09Probe(r *kit.Rand, base *c09Input, kind int) (in *c09Input, name, desc s
 		} else if p.Class == extension.PriorityBatch && r.Pct(30) && p.QoSLabel == extension.QoSBE {
 			p.Repr, p.PrioVal = 2, -1
 		}
+		in.bindByID(&p)
 		in.Pods = append(in.Pods, p)
 		desc = fmt.Sprintf("new pod %+v", p)
 	}
@@ -1554,6 +1681,17 @@ func TestVerifC09Calculate(t *testing.T) {
 			if len(in.Pods) > 12 {
 				c.Count("dim_more_than_12_pods", 1)
 			}
+			if in.ZoneIDs != nil {
+				c.Count("dim_zones_not_listed_as_0_to_n", 1)
+				if len(in.Zones) >= 11 {
+					c.Count("dim_zones_11_or_more_in_name_order", 1)
+				}
+				for i := range in.Pods {
+					if p := &in.Pods[i]; p.live() && p.hp() && len(p.NUMA) > 0 && !p.NUMABroken {
+						c.Count("dim_bound_hp_pod_with_unordered_zones", 1)
+					}
+				}
+			}
 			if len(in.Zones) == 3 || len(in.Zones) == 8 {
 				c.Count("dim_zones_3_or_8", 1)
 			}
@@ -1567,6 +1705,14 @@ func TestVerifC09Calculate(t *testing.T) {
 				c.Count("dim_reservedcpus_with_holes", 1)
 			}
 			c.Count(fmt.Sprintf("dim_strategy_layer_%d", in.Layer), 1)
+			for _, h := range in.HostApps {
+				if (h.Prio == extension.PriorityProd || h.Prio == extension.PriorityMid) && h.QoS == extension.QoSBE {
+					c.Count("dim_hostapp_hp_priority_with_be_qos", 1)
+				}
+				if h.QoS != extension.QoSNone {
+					c.Count("dim_hostapp_with_qos", 1)
+				}
+			}
 			if in.DegradeMin > 100000 {
 				c.Count("dim_degrade_time_years", 1)
 			}
@@ -1744,6 +1890,19 @@ func c09MinimalInputs() []struct {
 	add("pods requesting more than the node has (clamp at zero)", func(in *c09Input) {
 		in.Pods = []c09Pod{prod("p", extension.QoSLS, c09Res{120000, 120 * gi}, c09Res{110000, 110 * gi}, true)}
 		in.Policy = [2]int{c09PolMax, c09PolRequest}
+	})
+	add("two zones of 50 CPU / 50Gi listed as node-1, node-0; one prod pod (10 CPU, 10Gi, using all of it) bound to NUMA node 0", func(in *c09Input) {
+		in.Zones = []c09Res{{50000, 50 * gi}, {50000, 50 * gi}}
+		in.ZoneIDs = []int{1, 0}
+		pd := prod("p", extension.QoSLSR, c09Res{10000, 10 * gi}, c09Res{10000, 10 * gi}, true)
+		pd.NUMA = []int{0}
+		in.Pods = []c09Pod{pd}
+	})
+	add("the same zones listed as node-0, node-1", func(in *c09Input) {
+		in.Zones = []c09Res{{50000, 50 * gi}, {50000, 50 * gi}}
+		pd := prod("p", extension.QoSLSR, c09Res{10000, 10 * gi}, c09Res{10000, 10 * gi}, true)
+		pd.NUMA = []int{0}
+		in.Pods = []c09Pod{pd}
 	})
 	add("node metric one second older than the degrade time", func(in *c09Input) {
 		in.AgeNanos = in.DegradeMin*int64(time.Minute) + int64(time.Second)
@@ -2227,8 +2386,8 @@ func TestVerifC09NRTHistory(t *testing.T) {
 							}
 							for f, v := range vals {
 								if v.Sign() != 0 {
-									c.Fail("C09/degrade/zone-amounts-frozen-on-nrt", "%s: the node-level batch amounts are withdrawn but zone node-%d of the NodeResourceTopology still publishes batch-%s %s = %s (preexisting=%v, restarted=%v, NRT updates in this round: %d)",
-										tag, z, c09ResName[res], [3]string{"capacity", "allocatable", "available"}[f], v.RatString(), preexisting, restarted, cl.updates-upd)
+									c.Fail("C09/degrade/zone-amounts-frozen-on-nrt", "%s: the node-level batch amounts are withdrawn but zone %s of the NodeResourceTopology still publishes batch-%s %s = %s (preexisting=%v, restarted=%v, NRT updates in this round: %d)",
+										tag, in.zoneName(z), c09ResName[res], [3]string{"capacity", "allocatable", "available"}[f], v.RatString(), preexisting, restarted, cl.updates-upd)
 								}
 							}
 						}
@@ -2254,12 +2413,12 @@ func TestVerifC09NRTHistory(t *testing.T) {
 						}
 						for f, v := range vals {
 							if v.Sign() < 0 {
-								c.Fail("C09/nrt/zone-amount-negative", "%s: zone node-%d batch-%s = %s", tag, z, c09ResName[res], v.RatString())
+								c.Fail("C09/nrt/zone-amount-negative", "%s: zone %s batch-%s = %s", tag, in.zoneName(z), c09ResName[res], v.RatString())
 							}
 							if v.Cmp(upper) > 0 {
 								if !prevPresent[z][res] {
-									c.Fail("C09/nrt/zone-amount-above-calculated", "%s: zone node-%d batch-%s %s newly written to the NRT = %s exceeds the calculated zone amount %s x ratio = %s",
-										tag, z, c09ResName[res], [3]string{"capacity", "allocatable", "available"}[f], v.RatString(), out.zone[z][res].RatString(), upper.RatString())
+									c.Fail("C09/nrt/zone-amount-above-calculated", "%s: zone %s batch-%s %s newly written to the NRT = %s exceeds the calculated zone amount %s x ratio = %s",
+										tag, in.zoneName(z), c09ResName[res], [3]string{"capacity", "allocatable", "available"}[f], v.RatString(), out.zone[z][res].RatString(), upper.RatString())
 								}
 								c.Count("nrt_zone_kept_above_calculated_hysteresis", 1)
 							}
